@@ -42,6 +42,7 @@ func HandWritten() []*Case {
 		mk("h20", "id-only-table", "ph20", "type T struct{ Id int64 }\n", ""),
 		mk("h23", "enum-placeholder-undeclared-type", "ph23", "// gomacro:SQL ADD CHECK (V = #[Nope.X])\ntype T struct{ Id int64; V int }\n", ""),
 		mk("h24", "enum-placeholder-unknown-member", "ph24", "type E int\nconst EA E = 1\n// gomacro:SQL ADD CHECK (V = #[E.Nope])\ntype T struct{ Id int64; V E }\n", ""),
+		mk("h25", "embedded-struct-in-union-cycle", "ph25", "type S1 struct{ A int }\ntype U1 interface{ isU1() }\nfunc (S1) isU1() {}\ntype S3 struct {\n\tF []U1\n\tS1\n}\ntype S4 struct {\n\tB string\n\tS3\n}\n", ""),
 		withSub(mk("h21", "short-imported-package-name", "ph21", "type S struct{ V ab.T; W ab.N }\n", ""), "ab", "type T struct{ X int }\ntype N int\n"),
 		withSub(mk("h22", "two-letter-imported-package-name", "ph22", "type S struct{ V p2.T }\n", ""), "p2", "type T struct{ X string }\n"),
 	}
